@@ -175,3 +175,49 @@ impl fmt::Display for Val {
         write!(f, "v{}.{}", self.id, self.val)
     }
 }
+
+#[cfg(feature = "serde")]
+mod serde_impls {
+    use super::{Key, Probe, Val};
+    use crate::ctl::{self, Kind};
+    use serde::{Deserialize, Deserializer, Serialize, Serializer};
+
+    fn fresh() -> u32 {
+        ctl::with(|c| {
+            let i = c.next_id;
+            c.next_id += 1;
+            i
+        })
+    }
+
+    /// a key travels as one u64 (class in the high half, object id in the low half); a decoded
+    /// key is a NEW object of the same class (fresh id, like a clone, but no callback).
+    impl Serialize for Key {
+        fn serialize<S: Serializer>(&self, s: S) -> Result<S::Ok, S::Error> {
+            ctl::used(Kind::K, self.p.id);
+            s.serialize_u64(((self.p.cls as u64) << 32) | self.p.id as u64)
+        }
+    }
+    impl<'de> Deserialize<'de> for Key {
+        fn deserialize<D: Deserializer<'de>>(d: D) -> Result<Key, D::Error> {
+            let w = u64::deserialize(d)?;
+            let id = fresh();
+            ctl::created(Kind::K, id);
+            Ok(Key { p: Probe { cls: (w >> 32) as u8, id } })
+        }
+    }
+    impl Serialize for Val {
+        fn serialize<S: Serializer>(&self, s: S) -> Result<S::Ok, S::Error> {
+            ctl::used(Kind::V, self.id);
+            s.serialize_u64(((self.id as u64) << 32) | (self.val as u32) as u64)
+        }
+    }
+    impl<'de> Deserialize<'de> for Val {
+        fn deserialize<D: Deserializer<'de>>(d: D) -> Result<Val, D::Error> {
+            let w = u64::deserialize(d)?;
+            let id = fresh();
+            ctl::created(Kind::V, id);
+            Ok(Val { id, val: (w & 0xffff_ffff) as u32 as i32 })
+        }
+    }
+}
